@@ -74,7 +74,7 @@ def main():
           for p in props if p not in CHECKS]
     m = {
         "version": 1,
-        "setup_cmd": "cd harness && CARGO_NET_OFFLINE=true cargo build --release --offline",
+        "setup_cmd": "cd harness && CARGO_NET_OFFLINE=true cargo build --release --offline && CARGO_NET_OFFLINE=true cargo build --release --offline --features pod_payload --target-dir target-pod",
         "hooks": {
             "guard": "cargo feature multiqueue2_verif",
             "enable": "the harness crate /verif/harness depends on /repo with features=[\"multiqueue2_verif\"]; nothing else enables it",
